@@ -1,3 +1,4 @@
+\* seeded change S-C03-6 at the design level: must violate PushFixpointAgreement
 SPECIFICATION Spec
 CONSTANTS
   Members = {1, 2, 3}
@@ -6,7 +7,7 @@ CONSTANTS
   MaxEvents = 3
   MaxWrites = 2
   Export = FALSE
-  OnlyClosestKept = FALSE
+  OnlyClosestKept = TRUE
 VIEW mview
-INVARIANTS ValidTable PushFixpointAgreement ExportInv
+INVARIANTS PushFixpointAgreement
 CHECK_DEADLOCK FALSE
